@@ -5,7 +5,11 @@ Import ListNotations.
 Require Import Nib.Lib.Dec Nib.C10.Model Nib.C10.Spec.
 Local Open Scope Z_scope.
 
-Record case := mkCase { c_params : params; c_state : state; c_height : Z; c_obs : outcome }.
+(** a case is either one EndBlocker call on a prepared state or a history of steps on one keeper *)
+Inductive case :=
+| CSingle (p : params) (st : state) (h : Z) (obs : outcome)
+| CHist (p : params) (e : henv) (rates0 : list rate_entry) (steps : list (hstep * hobs)).
+Definition mkCase := CSingle.
 
 (** the ExchangeRates store is compared as a list sorted by pair (its iteration order) *)
 Fixpoint insert_rate (e : rate_entry) (l : list rate_entry) : list rate_entry :=
@@ -35,7 +39,31 @@ Definition outcome_eqb (a b : outcome) : bool :=
   | _, _ => false
   end.
 
-Definition model_outcome (c : case) : outcome := end_block true (c_params c) (c_state c) (c_height c).
+Definition votes_eqb : list avote -> list avote -> bool := leqb avote_eqb.
 
-Definition mismatch (c : case) : bool := negb (outcome_eqb (model_outcome c) (c_obs c)).
-Definition violates (c : case) : bool := negb (Pb (c_params c) (c_state c) (c_height c) (c_obs c)).
+Definition hstep_agrees (r : option (hstate * list (nat * Z))) (o : hobs) : bool :=
+  match r with
+  | None => ho_panic o
+  | Some (s, evs) =>
+      negb (ho_panic o) && rates_eqb (sort_rates (hs_rates s)) (sort_rates (ho_rates o)) && evs_eqb evs (ho_events o) &&
+      votes_eqb (hs_votes s) (ho_votes o) && evs_eqb (hs_prevotes s) (ho_prevotes o)
+  end.
+
+Fixpoint hist_cmp (p : params) (e : henv) (s : hstate) (l : list (hstep * hobs)) : bool :=
+  match l with
+  | [] => true
+  | (x, o) :: r =>
+      let res := hist_step true p e s x in
+      hstep_agrees res o && match res with None => true | Some (s', _) => hist_cmp p e s' r end
+  end.
+
+Definition mismatch (c : case) : bool :=
+  match c with
+  | CSingle p st h obs => negb (outcome_eqb (end_block true p st h) obs)
+  | CHist p e rs steps => negb (hist_cmp p e (mkHS rs [] []) steps)
+  end.
+Definition violates (c : case) : bool :=
+  match c with
+  | CSingle p st h obs => negb (Pb p st h obs)
+  | CHist p e rs steps => negb (Pb_hist p e rs [] [] steps)
+  end.
